@@ -1,6 +1,7 @@
 #!/usr/bin/env python3
 """cross_seed.py seeded/NAME C04 C11 ... — runs OTHER properties' checks against a seeded patch and records the outcome in meta.json."""
 import fcntl, json, os, subprocess, sys
+os.environ['VERIF_SEED_LOCK_HELD'] = '1'
 _lock = open('/tmp/verif-seed.lock', 'w'); fcntl.flock(_lock, fcntl.LOCK_EX)
 d = os.path.abspath(sys.argv[1].rstrip('/')); pids = sys.argv[2:]
 def sh(c): return subprocess.run(c, shell=True, stdout=subprocess.PIPE, stderr=subprocess.STDOUT, text=True)
